@@ -335,22 +335,32 @@ def reprojected_inputs_closed(run, tmp):
                         raise sc.InjectedFault('injected read failure')
                     return orig(self, bp)
                 cls.read = read
+                import threading
+                late = []
                 try:
                     with obj:
-                        if cls is RasterFuse:
-                            obj.process(tmp / 'c09vrt_out.tif', Model.gain, (1, 1), overwrite=True, build_ovw=False,
-                                        block_config=dict(threads=2, max_block_mem=2e-3))
-                        else:
-                            obj.process(threads=2, max_block_mem=2e-3)
+                        before = set(threading.enumerate())
+                        try:
+                            if cls is RasterFuse:
+                                obj.process(tmp / 'c09vrt_out.tif', Model.gain, (1, 1), overwrite=True, build_ovw=False,
+                                            block_config=dict(threads=2, max_block_mem=2e-3))
+                            else:
+                                obj.process(threads=2, max_block_mem=2e-3)
+                        except Exception as ex:
+                            raised = ex
+                        late = sc.stragglers(before)      # (joined before the datasets are closed)
                 except Exception as ex:
-                    raised = ex
+                    raised = raised or ex
                 finally:
                     cls.read = orig
             run.evaluations += 1
             run.hist['re-projected input pairs: descriptors checked'] += 1
             run.nontrivial.add(('vrt-closed', k, cls.__name__, fail))
             left = open_fds(paths)
-            if fail and raised is None:
+            if late:
+                run.fail(case, f'{cls.__name__}.process returned / raised while {len(late)} worker thread(s) of the call were still running',
+                         signature=dict(kind='not-terminated', op='vrt'))
+            elif fail and raised is None:
                 run.fail(case, 'the injected read failure was swallowed', signature=dict(kind='swallowed', op='vrt'))
             elif not fail and raised is not None:
                 run.fail(case, f'raised {type(raised).__name__}: {raised}', signature=dict(kind='raises', op='vrt'))
@@ -451,13 +461,20 @@ def corrupted_tile_leg(run, tmp):
                                                        block_config=dict(threads=T, max_block_mem=2e-3))
                         else:
                             call = lambda: obj.process(threads=T, max_block_mem=2e-3)
+                        import threading
+                        before = set(threading.enumerate())
                         fin, rr = sc.run_with_watchdog(call, timeout=60)
+                        late = sc.stragglers(before) if fin else []
                 raised = isinstance(rr, BaseException)
             except Exception:
-                raised, fin = True, True
+                raised, fin, late = True, True, []
             run.evaluations += 1
             run.hist['unreadable-tile runs'] += 1
             run.nontrivial.add(('corrupt-src', cls.__name__, T))
+            if late:
+                run.fail(case, f'{cls.__name__}.process raised while {len(late)} worker thread(s) of the call were still running',
+                         signature=dict(kind='not-terminated', op='corrupt-src'))
+                continue
             if not fin:
                 run.fail(case, f'{cls.__name__} hung on an unreadable source tile', signature=dict(kind='hang', op='corrupt'))
             elif not raised:
